@@ -48,6 +48,22 @@ var teardownPrefixes = map[string][]string{
 	"terminate-all":  {"created", "authed", "addressed", "established"},
 }
 
+// staleCells: the "stale reference" family.  A snapshot-based mass termination (TerminateAll / TerminateByUsername
+// take the list of sessions first and then work through it) is parked while it is busy with the FIRST session of
+// its list; meanwhile another session of that list ends completely by a path of its own; the mass termination is
+// released and reaches that session through the pointer it took before.
+func teardownStaleCells() []cellSpec {
+	var out []cellSpec
+	for _, mass := range []string{"terminate-all", "admin-user"} {
+		for _, pre := range teardownPrefixes[mass] {
+			for _, s := range []string{"stale:client-padt", "stale:admin-id", "stale:admin-mac", "stale:coa-disconnect"} {
+				out = append(out, cellSpec{Kind: "teardown", Path: mass, Prefix: pre, Second: s, ParkAt: "padt"})
+			}
+		}
+	}
+	return out
+}
+
 func teardownCells(parked bool) []cellSpec {
 	var out []cellSpec
 	for _, p := range teardownPaths {
@@ -92,6 +108,9 @@ func genTeardown(s src, c cellSpec, base *params) *tcase {
 	if secondPath(c.Second) == "terminate-all" {
 		tc.P.BgMACs = nil // the second termination would legitimately end the background sessions too
 	}
+	if secondShape(c.Second) == "stale" && len(tc.P.BgMACs) == 0 {
+		tc.P.BgMACs = []hexb{genMAC(s, "bg0", 1)} // the mass termination needs a list of at least two sessions
+	}
 	return tc
 }
 
@@ -135,6 +154,7 @@ func (p *parkPool) allocated() int {
 type gate struct {
 	mu      sync.Mutex
 	at, id  string
+	hitID   string // the id on whose behalf the parked call was made
 	armed   bool
 	parked  chan struct{} // closed when a goroutine is parked
 	release chan struct{}
@@ -150,9 +170,10 @@ func (g *gate) arm(at, id string) {
 
 func (g *gate) pass(at, id string) {
 	g.mu.Lock()
-	hit := g.armed && g.at == at && g.id == id
+	hit := g.armed && g.at == at && (g.id == id || g.id == "*")
 	if hit {
 		g.armed = false
+		g.hitID = id
 	}
 	g.mu.Unlock()
 	if hit {
@@ -185,6 +206,7 @@ type tdRun struct {
 	gate *gate
 
 	mu       sync.Mutex
+	padtsFor map[string]int // PADTs sent per Acct-Session-Id
 	padts    int
 	termReqs int
 	second   chan struct{} // closed when the second termination has got hold of the session (its first PADT)
@@ -323,8 +345,9 @@ func (x *tdRun) wireCoA() {
 }
 
 // terminate performs one termination path on the session under test (synchronously).
-func (x *tdRun) terminate(path string) {
-	me := x.me
+func (x *tdRun) terminate(path string) { x.terminateOn(path, x.me) }
+
+func (x *tdRun) terminateOn(path string, me *tdSess) {
 	switch path {
 	case "client-padt":
 		// what a PADT handler does: look the session up, hand it to the teardown
@@ -356,6 +379,19 @@ func (x *tdRun) terminate(path string) {
 	}
 }
 
+// massTerminate runs a snapshot-based mass termination: TerminateAll, or TerminateByUsername for a user all of whose
+// sessions (in the stale family: every session of the case) carry that name.
+func (x *tdRun) massTerminate(path string) {
+	switch path {
+	case "terminate-all":
+		n := x.td.TerminateAll(pppoe.TerminateCauseNASReboot, "maintenance")
+		x.res.logf("    TerminateAll -> %d", n)
+	case "admin-user":
+		n := x.td.TerminateByUsername(x.me.user, "operator")
+		x.res.logf("    TerminateByUsername(%s) -> %d", x.me.user, n)
+	}
+}
+
 func runTeardown(t testing.TB, tc *tcase) *result {
 	rs := scriptedRadius(t)
 	res := &result{}
@@ -374,7 +410,7 @@ func runTeardownInBubble(tc *tcase, rs *radServer, res *result) {
 		return
 	}
 	defer w.close()
-	x := &tdRun{tc: tc, res: res, w: w, rs: rs, gate: newGate(), second: make(chan struct{})}
+	x := &tdRun{tc: tc, res: res, w: w, rs: rs, gate: newGate(), second: make(chan struct{}), padtsFor: map[string]int{}}
 	if p.Radius {
 		if x.rc, err = newRadiusClient(rs); err != nil {
 			res.harness = err.Error()
@@ -403,6 +439,7 @@ func runTeardownInBubble(tc *tcase, rs *radServer, res *result) {
 	x.td.SetSendPADT(func(s *pppoe.Session, tags []pppoe.Tag) {
 		x.mu.Lock()
 		x.padts++
+		x.padtsFor[s.SessionID]++
 		sig := x.secondMe && s == x.me.s
 		if sig {
 			x.secondMe = false
@@ -429,6 +466,9 @@ func runTeardownInBubble(tc *tcase, rs *radServer, res *result) {
 	}
 	for i, m := range p.BgMACs {
 		b := &tdSess{mac: net.HardwareAddr(m), user: fmt.Sprintf("bg%d", i)}
+		if tc.shape() == "stale" && tc.Path == "admin-user" {
+			b.user = p.User // one subscriber name with several sessions: TerminateByUsername ends them all
+		}
 		if !x.establish(b, "established") {
 			return
 		}
@@ -507,6 +547,87 @@ func runTeardownInBubble(tc *tcase, rs *radServer, res *result) {
 		}
 		if len(res.viol) == 0 {
 			x.oracle(sigPath, pre0, pre, preAlloc)
+		}
+	case "stale":
+		sp := secondPath(tc.Second)
+		all := append([]*tdSess{x.me}, x.bg...)
+		inList := func(ts *tdSess) bool { return tc.Path == "terminate-all" || ts.s.Username == x.me.user }
+		x.gate.arm("padt", "*")
+		x.allEnded = true // every session of the case is in the mass termination's list
+		for _, ts := range all {
+			if !inList(ts) {
+				x.allEnded = false
+			}
+		}
+		d1 := make(chan struct{})
+		go func() { defer close(d1); x.massTerminate(tc.Path) }()
+		select {
+		case <-x.gate.parked:
+		case <-d1:
+			res.harness = "the mass termination sent no PADT at all"
+			return
+		}
+		// the mass termination holds its snapshot and is busy with the first session of it; pick as victim the first
+		// session (in harness order) of the list that it has not reached yet
+		var victim *tdSess
+		for _, ts := range all {
+			if inList(ts) && ts.acct != x.gate.hitID {
+				victim = ts
+				break
+			}
+		}
+		if victim == nil {
+			res.classes = append(res.classes, "stale:single-session-list")
+			x.gate.open()
+			<-d1
+			synctest.Wait()
+			x.oracle("stale", pre0, pre, preAlloc)
+			break
+		}
+		if victim == x.me {
+			res.classes = append(res.classes, "stale:victim-is-test-session")
+		} else {
+			res.classes = append(res.classes, "stale:victim-is-background-session")
+		}
+		res.logf("  %s took its list and is busy with session %s; meanwhile session %d (%s) ends by %s", tc.Path, x.gate.hitID, victim.sid, victim.acct, sp)
+		x.terminateOn(sp, victim)
+		synctest.Wait()
+		x.mu.Lock()
+		padt1 := x.padtsFor[victim.acct]
+		x.mu.Unlock()
+		recs1 := 0
+		for _, r := range rs.records() {
+			if r.SID == victim.acct {
+				recs1++
+			}
+		}
+		if s := x.sm.GetSession(victim.sid); s != nil {
+			res.fail("C16/teardown/"+sp+"/entry", "session %d is still in the session manager after %s (a mass termination was in progress on another session)", victim.sid, sp)
+			x.gate.open()
+			<-d1
+			break
+		}
+		x.gate.open()
+		<-d1
+		synctest.Wait()
+		res.classes = append(res.classes, "stale:reached")
+		recs2 := 0
+		for _, r := range rs.records() {
+			if r.SID == victim.acct {
+				recs2++
+			}
+		}
+		if recs2 != recs1 {
+			res.fail("C16/teardown/stale/second-sends-acct", "%s reached session %d through the reference it took before %s had ended it, and sent %d more accounting record(s) for %s; stream: %v", tc.Path, victim.sid, sp, recs2-recs1, victim.acct, rs.records())
+		}
+		x.mu.Lock()
+		padt2 := x.padtsFor[victim.acct]
+		x.mu.Unlock()
+		if padt2 != padt1 && len(res.viol) == 0 {
+			res.fail("C16/teardown/stale/padt-resent", "%s reached session %d through the reference it took before %s had ended it, and sent %d more PADT(s) for the ended session (a second termination sends nothing)", tc.Path, victim.sid, sp, padt2-padt1)
+		}
+		if len(res.viol) == 0 {
+			x.oracle("stale", pre0, pre, preAlloc)
 		}
 	case "parked":
 		sp := secondPath(tc.Second)
